@@ -41,9 +41,10 @@ def cut_iterator(seq):
     # frame 0: this function, 1: SymSeq.__iter__, 2: the function under verification
     cut = seq.cut
     cut.entries = getattr(cut, "entries", 0)
-    it = _CutIter(seq, sys._getframe(2), cut.entries)
-    cut.entries += 1
-    return it
+    # the entry number (nested loops: which pass over the sequence this is) is assigned when the iteration
+    # turns out to be one over the contract's state; auxiliary loops over the same sequence (shape checks,
+    # an appending loop) are not counted
+    return _CutIter(seq, sys._getframe(2), None)
 
 
 def _hook(what, fn, *a):
@@ -139,6 +140,9 @@ class _CutIter:
             ctx.loop_obligations = []
         if self.phase == 0:
             self.phase = 1
+            if getattr(cut, "pre_hook", None) and self.entry is None:
+                self.entry = cut.entries
+                cut.entries += 1
             if getattr(cut, "pre_hook", None):
                 # custom cut (state inside containers): the contract's hook builds the arbitrary prior
                 # state itself; establishment is the contract's business (initially empty containers)
@@ -159,7 +163,26 @@ class _CutIter:
                 return seq.at(j)
             self.state = _hook('select_state', cut.select_state, self.frame.f_locals)
             if not self.state and not getattr(cut, "stateless", False):
-                ctx.unsupported_here("loop cut %s: no loop-carried state found" % cut.name)
+                # a loop over the cut sequence that does not touch the contract's state (not the loop the
+                # invariant is about): the appending loop is answered as the comprehension it spells; a loop
+                # whose body neither branches on symbolic data, nor raises, nor changes anything (a check
+                # such as `assert v.ndim == 1` that holds outright) has no effect for any number of elements
+                if try_append_loop(seq, self.frame):
+                    self.phase = 2
+                    raise StopIteration
+                self._frame_guard(ctx, cut)
+                self.noop_probe = (ctx.branchings, len(ctx.pc), len(ctx.notes))
+                j = ctx.fresh("j_" + cut.name, z3.IntSort())
+                if ctx.fork(alg.eq(seq.K, 0)):
+                    self.phase = 2
+                    raise StopIteration
+                self.noop_probe = (ctx.branchings, len(ctx.pc), len(ctx.notes))
+                ctx.assume(alg.and_(alg.le(0, j), alg.lt(j, seq.K)))
+                self.phase = 3
+                return seq.at(j)
+            if self.entry is None:
+                self.entry = cut.entries
+                cut.entries += 1
             self._frame_guard(ctx, cut)
             snap = _snapshot(self.state)
             n = cut.length_of(snap)
@@ -180,6 +203,14 @@ class _CutIter:
                 _hook('on_enter', cut.on_enter, self.frame.f_locals, j)
             _havoc(ctx, self.state, cut, j, "pre", self._inv)
             return seq.at(j)
+        if self.phase == 3:
+            # end of the probe iteration of a loop without state: it must have been a no-op
+            self.phase = 2
+            self._frame_check(ctx, cut)
+            nf, npc, nn = self.noop_probe
+            if ctx.branchings != nf or len(ctx.notes) != nn:
+                ctx.unsupported_here("loop cut %s: a loop without loop-carried state whose body branches on symbolic data" % cut.name)
+            raise StopIteration
         if self.phase == 1:
             self.phase = 2
             self._frame_check(ctx, cut)
@@ -443,8 +474,18 @@ def try_append_loop(seq, frame):
     if fn is None:
         return False
     lo_, hi_ = node.lineno, node.end_lineno or node.lineno
+    # other constructs that bind the same name again (their own reads of it are fine)
+    rebinders = []
     for n in _ast.walk(fn):
-        if isinstance(n, _ast.Name) and n.id == target and not (lo_ <= n.lineno <= hi_):
+        if isinstance(n, (_ast.For, _ast.comprehension)) and target in _target_names(n.target):
+            if isinstance(n, _ast.For) and not (n.lineno == node.lineno):
+                rebinders.append((n.lineno, n.end_lineno or n.lineno))
+    for n in _ast.walk(fn):
+        if isinstance(n, _ast.Name) and n.id == target and isinstance(n.ctx, _ast.Load) and not (lo_ <= n.lineno <= hi_):
+            if any(a <= n.lineno <= b for a, b in rebinders):
+                continue
+            if any(isinstance(c, (_ast.ListComp, _ast.SetComp, _ast.GeneratorExp, _ast.DictComp)) and any(target in _target_names(g.target) for g in c.generators) and c.lineno <= n.lineno <= (c.end_lineno or c.lineno) for c in _ast.walk(fn)):
+                continue
             return False
     lam = _ast.Lambda(args=_ast.arguments(posonlyargs=[], args=[_ast.arg(arg=target)], kwonlyargs=[], kw_defaults=[], defaults=[]), body=expr)
     lam = front._ComprehensionRewrite().visit(_ast.fix_missing_locations(_ast.Expression(body=lam)))
